@@ -119,7 +119,7 @@ ADDED = {
  "C08": "Added later: grammar-aware numeric-limit inputs (n = 0 with 64-bit vertex numbers, walks of the current vertex across n, 2^k, 2^8 .. 2^64, long runs), results edited by the caller before the same string is decoded again, every small result re-encoded in the other format and read back.",
  "C09": "Added later: structured graphs with closed-form values up to 257 vertices (K_{256,257}), argument graphs re-read after the call. Received cliques are kept while the producer goes on, then appended to by the receiver.",
  "C10": "Added later: structured graphs with closed forms at n = 31..257, graphs of 300..4096 vertices with independent oracles, call sessions in one process (same function twice, large after small, representation changes). Added in round 8: the caller appends to every list of a result; calls nested in one another through a caller-implemented Graph.",
- "C11": "Added later: live views (induced, complement, nested) and representation variants as inputs, repeated calls, view sessions with edits of the host between calls, a Graph implemented by the caller (handing out copies, as the library types do).",
+ "C11": "Added later: live views (induced, complement, nested) and representation variants as inputs, repeated calls, view sessions with edits of the host between calls, a Graph implemented by the caller (handing out copies, as the library types do); two hubs over a forest of paths (fragments with many admissible faces) under 30 seeded relabellings each.",
  "C12": "Added later: caller-owned word slices, Builder life cycles (one Builder for several Dawgs, Initialise after Finish / abandoned build / rejected Add, Builder values moved by assignment) with every earlier Dawg re-checked.",
  "C13": "Added later: user-defined searchers and nested searches, words of up to 6228 (65537) bytes and result totals beyond 65536 bytes, results of earlier searches held and overwritten.",
  "C14": "Added later: receivers that already hold an automaton, caller-owned bytes, more than 65536 nodes, the last integer of the stream at every width, Dawgs of reused Builders. The byte layout itself is recorded, not judged. A value copy of the Dawg kept across a reload of the variable.",
